@@ -158,6 +158,7 @@ class ScriptedStrategy(Strategy):
         if self.pos < len(self.script) and self.script[self.pos] == "CRASH":
             self.pos += 1
             sched.crash("scripted")
+        self.fallback.on_step(sched)
 
     def choose(self, sched, cands, can_time):
         if self.pos < len(self.script):
